@@ -1,2 +1,226 @@
-(* Props/C07.v — placeholder while the proofs are being written *)
+(* Props/C07.v — property C07: a graph that compiles cannot hit a type mismatch between
+   concretely typed nodes; interface-typed connections are checked at run time with an
+   ordinary error; type inference through passthrough nodes.
+   Only statements, each closed by [exact]; the definitions they speak about are the ones
+   the correspondence check (Corr/C07.v) evaluates on every run: [run_ops], [in_ty],
+   [out_ty], [run] of Model/TypeBuilder.v and the lattice of Model/Types.v.
+
+   Reading guide.  [run_ops u orcs 0 (init_graph i o s) ops = (st, oks)]: the calls [ops]
+   (AddLambdaNode / AddPassthroughNode / AddEdge / AddBranch / Compile) made on a new
+   graph with input type [i], output type [o] and state type [s] leave the builder in
+   state [st]; [oks] says which calls returned nil.  [orcs] resolves every iteration over
+   a Go map (toValidateMap, branch.endNodes): all theorems hold for every [orcs].
+   [u] is the type universe (method sets): all theorems hold for every universe. *)
 From Eino Require Import Base.Util Model.Types Model.TypeBuilder.
+From Eino Require Import Proofs.TypesLattice Proofs.TypesBuilder Proofs.TypesRun Proofs.TypesInv2 Proofs.TypesMay Proofs.TypesMain.
+
+(* the universe of the harness: T1 T2 T3 M = TConc 0..3, I1 I2 = TIface 0 1 *)
+Definition U0 : univ :=
+  {| u_conc := [(0, [1; 2]); (1, [2]); (2, []); (3, [])]%N; u_iface := [(0, [1; 2]); (1, [2])]%N |}.
+Definition T1 := TConc 0. Definition T2 := TConc 1. Definition T3 := TConc 2.
+Definition I1 := TIface 0. Definition I2 := TIface 1.
+Definition asc : nat -> nat -> nat -> list key := fun _ _ _ => [].
+
+(* ------------------------------------------------------------------ the lattice *)
+
+(* checkAssignable = Must is sound: every value the upstream static type admits passes the
+   downstream assertion (node entry, branch condition, state handler) *)
+Theorem must_is_sound : forall u i a d,
+  check_assignable u (Some i) (Some a) = Must -> has_type u d i = true -> assert_type u d a = true.
+Proof. exact must_sound. Qed.
+Print Assumptions must_is_sound.
+
+(* two concrete types are compatible only when equal; a concrete upstream is never May *)
+Theorem concrete_concrete_equal : forall u x y,
+  check_assignable u (Some (TConc x)) (Some (TConc y)) <> MustNot -> x = y.
+Proof. exact concrete_pair_equal. Qed.
+Print Assumptions concrete_concrete_equal.
+
+Theorem concrete_upstream_decided : forall u x a,
+  check_assignable u (Some (TConc x)) (Some a) <> MustNot ->
+  check_assignable u (Some (TConc x)) (Some a) = Must.
+Proof. exact concrete_upstream_static. Qed.
+Print Assumptions concrete_upstream_decided.
+
+(* the assertion the framework makes (after the repair F-C07b) is Go assignability *)
+Theorem assertion_is_assignability : forall u d t, assert_type u d t = dyn_assignable u d t.
+Proof. exact assert_type_assignable. Qed.
+Print Assumptions assertion_is_assignability.
+
+(* ------------------------------------------------------------------ validated_edges_stay_valid *)
+
+(* Whatever calls follow ([ops2]), a type that is known (declared or inferred) after [ops1]
+   never changes, and a connection that has been validated ([conn_ok]: both types known,
+   checkAssignable <> MustNot, converter installed if May) stays validated.  This is the
+   invariant the defect F-C07a broke. *)
+Theorem validated_edges_stay_valid : forall u orcs i o s ops1 ops2 st1 oks1 st2 oks2,
+  run_ops u orcs 0 (init_graph i o s) ops1 = (st1, oks1) ->
+  run_ops u orcs 0 (init_graph i o s) (ops1 ++ ops2) = (st2, oks2) ->
+  (forall k t, in_ty st1 k = Some t -> in_ty st2 k = Some t) /\
+  (forall k t, out_ty st1 k = Some t -> out_ty st2 k = Some t) /\
+  (forall p, conn_ok u st1 p -> conn_ok u st2 p).
+Proof. exact stay_valid. Qed.
+Print Assumptions validated_edges_stay_valid.
+
+Definition ops_a1 : list op :=
+  [OpPass 2 None None; OpNode 3 T2 T1 None None; OpNode 4 T2 T1 None None; OpEdge 0 2]%N.
+Definition ops_a2 : list op :=
+  [OpBranch 2 T2 [3; 4] [3]; OpEdge 3 1; OpEdge 4 1; OpCompile]%N.
+
+Example validated_edges_stay_valid_nonvacuous :
+  let st1 := fst (run_ops U0 asc 0 (init_graph T1 T1 None) ops_a1) in
+  let '(st2, oks2) := run_ops U0 asc 0 (init_graph T1 T1 None) (ops_a1 ++ ops_a2) in
+  in_ty st1 2%N = Some T1 /\ in_ty st2 2%N = Some T1 /\ oks2 = [true; true; true; true; false; false; false; false].
+Proof. vm_compute. auto. Qed.
+
+(* before the repair F-C07a ([ow = true]) AddBranch overwrote the inferred type *)
+Theorem validated_edges_stay_valid_v0_refuted :
+  let st1 := fst (run_ops_sel U0 true false false asc 0 (init_graph T1 T1 None) ops_a1) in
+  let '(st2, oks2) := run_ops_sel U0 true false false asc 0 (init_graph T1 T1 None) (ops_a1 ++ ops_a2) in
+  in_ty st1 2%N = Some T1 /\ in_ty st2 2%N = Some T2 /\ g_compiled st2 = true /\
+  run U0 (assert_type U0) [] st2 (DVal 0) = RPanicEsc.
+Proof. vm_compute. auto. Qed.
+
+(* ------------------------------------------------------------------ compile_sound *)
+
+(* If some Compile call succeeded, then on every data edge and every branch end the two
+   types are known and: concrete-concrete => equal; concrete upstream => statically
+   assignable (Must); interface upstream => Must, or May with a run-time converter
+   installed on exactly that edge.  The same for every branch condition.  Every node is
+   typed, a passthrough node has equal input and output type, state handlers are declared
+   at their node's type, and nothing is pending in toValidateMap.  Types may be declared or
+   inferred through any number of passthrough nodes. *)
+Theorem compile_sound : forall u orcs i o s ops st oks,
+  run_ops u orcs 0 (init_graph i o s) ops = (st, oks) ->
+  g_compiled st = true -> compiled_sound u st.
+Proof. exact compile_sound_main. Qed.
+Print Assumptions compile_sound.
+
+(* [g_compiled] after a final Compile is "that call returned nil" *)
+Theorem compile_sound_after_compile : forall u orcs i o s ops st oks,
+  run_ops u orcs 0 (init_graph i o s) (ops ++ [OpCompile]) = (st, oks) ->
+  last oks false = true -> compiled_sound u st.
+Proof. exact compile_sound_last. Qed.
+Print Assumptions compile_sound_after_compile.
+
+(* START:T1 -> n2 (T1 -> I2) -> P (passthrough, inferred I2) -> n4 (T1 -> T1) -> END *)
+Definition ops_b : list op :=
+  [OpNode 2 T1 I2 None None; OpPass 3 None None; OpNode 4 T1 T1 None None;
+   OpEdge 0 2; OpEdge 2 3; OpEdge 3 4; OpEdge 4 1; OpCompile]%N.
+Definition st_b : gstate := fst (run_ops U0 asc 0 (init_graph T1 T1 None) ops_b).
+
+Example compile_sound_nonvacuous :
+  snd (run_ops U0 asc 0 (init_graph T1 T1 None) ops_b) = [true; true; true; true; true; true; true; true] /\
+  g_compiled st_b = true /\ in_ty st_b 3%N = Some I2 /\ g_hedge st_b = [(3, 4, T1)]%N.
+Proof. vm_compute. auto. Qed.
+
+(* ------------------------------------------------------------------ run_type_safe *)
+
+(* No run of a compiled graph reaches a failing type assertion (neither the recovered
+   panic of a node entry nor the escaping panic of a branch condition, state handler or
+   the final output), for every input of the graph's input type and every dynamic value
+   the lambdas return ([emit], constrained only by what the Go compiler guarantees:
+   [emit_ok] = every lambda returns a value of its declared output type). *)
+Theorem run_type_safe : forall u orcs i o s ops st oks emit input,
+  run_ops u orcs 0 (init_graph i o s) ops = (st, oks) -> g_compiled st = true ->
+  emit_ok u emit st -> has_type u input (g_in st) = true ->
+  run u (assert_type u) emit st input <> RPanicRec /\
+  run u (assert_type u) emit st input <> RPanicEsc.
+Proof. exact run_type_safe_main. Qed.
+Print Assumptions run_type_safe.
+
+Example run_type_safe_nonvacuous :
+  emit_ok U0 [(2, DVal 0)]%N st_b /\ emit_ok U0 [(2, DVal 1)]%N st_b /\ emit_ok U0 [(2, DNil)]%N st_b /\
+  run U0 (assert_type U0) [(2, DVal 0)]%N st_b (DVal 0) = ROk (DVal 0) /\
+  run U0 (assert_type U0) [(2, DVal 1)]%N st_b (DVal 0) = RTypeErr /\
+  run U0 (assert_type U0) [(2, DNil)]%N st_b (DVal 0) = RTypeErr.
+Proof.
+  split; [apply emit_okb_sound; vm_compute; reflexivity|].
+  split; [apply emit_okb_sound; vm_compute; reflexivity|].
+  split; [apply emit_okb_sound; vm_compute; reflexivity|].
+  vm_compute. auto.
+Qed.
+
+(* before the repair F-C07b the assertion was the plain [v.(T)], which fails for nil: a nil
+   value returned by a node of output type any panicked in an any-typed branch condition *)
+Definition ops_c : list op :=
+  [OpNode 2 T1 TAny None None; OpNode 3 TAny T1 None None; OpNode 4 TAny T1 None None;
+   OpEdge 0 2; OpBranch 2 TAny [3; 4] [3]; OpEdge 3 1; OpEdge 4 1; OpCompile]%N.
+Theorem run_type_safe_v0_refuted :
+  let st := fst (run_ops U0 asc 0 (init_graph T1 T1 None) ops_c) in
+  g_compiled st = true /\ emit_ok U0 [(2, DNil)]%N st /\
+  run U0 (assert_type_v0 U0) [(2, DNil)]%N st (DVal 0) = RPanicEsc /\
+  run U0 (assert_type U0) [(2, DNil)]%N st (DVal 0) = ROk (DVal 0).
+Proof.
+  split; [vm_compute; reflexivity|].
+  split; [apply emit_okb_sound; vm_compute; reflexivity|].
+  vm_compute. auto.
+Qed.
+
+(* ------------------------------------------------------------------ may_edges_error_iff *)
+
+(* [step_mismatch u st done]: some value [d] that a node [s] just completed with is not
+   assignable (Go assignability, [dyn_assignable]) to the condition type of a branch of [s]
+   or to the input type of a node it is handed to (data-edge successors and the nodes the
+   branch conditions select).  [choices_valid]: every branch condition returns end nodes
+   of its own branch (otherwise the run may end with the ordinary error "branch result is
+   not an end node" before the type check is reached; second clause).
+   For every superstep of a compiled graph: the run-time type error is reported exactly
+   when such a value exists; it always ends the run with an ordinary error, never a panic
+   (run_type_safe) and never silently. *)
+Theorem may_edges_error_iff_step : forall u orcs i o s ops st oks done,
+  run_ops u orcs 0 (init_graph i o s) ops = (st, oks) -> g_compiled st = true ->
+  (forall x, In x done -> done_ok u st x) ->
+  (next u (assert_type u) st done = inl RTypeErr -> step_mismatch u st done = true) /\
+  (step_mismatch u st done = true ->
+     next u (assert_type u) st done = inl RTypeErr \/ next u (assert_type u) st done = inl ROther) /\
+  (choices_valid st ->
+     (next u (assert_type u) st done = inl RTypeErr <-> step_mismatch u st done = true)).
+Proof. exact may_step_main. Qed.
+Print Assumptions may_edges_error_iff_step.
+
+(* The whole run ([run_dones]: the completed-task lists of its supersteps, every value in
+   them of its producer's static output type): Invoke fails with the run-time type error
+   iff in some superstep a value is not assignable to something it is handed to. *)
+Theorem may_edges_error_iff : forall u orcs i o s ops st oks emit input,
+  run_ops u orcs 0 (init_graph i o s) ops = (st, oks) -> g_compiled st = true ->
+  emit_ok u emit st -> has_type u input (g_in st) = true -> choices_valid st ->
+  (run u (assert_type u) emit st input = RTypeErr <->
+   exists done, In done (run_dones u emit st input) /\ step_mismatch u st done = true).
+Proof. exact may_run_main. Qed.
+Print Assumptions may_edges_error_iff.
+
+(* ... and a mismatch needs an interface-typed upstream: a value completed by a node of
+   concrete output type is assignable to everything it is handed to *)
+Theorem mismatch_only_from_interface : forall u orcs i o s ops st oks k d c,
+  run_ops u orcs 0 (init_graph i o s) ops = (st, oks) -> g_compiled st = true ->
+  choices_valid st -> done_ok u st (k, d) -> out_ty st k = Some (TConc c) ->
+  bad_branch u st k d = false /\ bad_target u st k d = false.
+Proof. exact concrete_upstream_main. Qed.
+Print Assumptions mismatch_only_from_interface.
+
+Example may_edges_error_iff_nonvacuous :
+  choices_valid st_b /\
+  run U0 (assert_type U0) [(2, DVal 1)]%N st_b (DVal 0) = RTypeErr /\
+  run_dones U0 [(2, DVal 1)]%N st_b (DVal 0) = [[(0, DVal 0)]; [(2, DVal 1)]; [(3, DVal 1)]]%N /\
+  step_mismatch U0 st_b [(3, DVal 1)]%N = true /\
+  step_mismatch U0 st_b [(2, DVal 1)]%N = false /\
+  run U0 (assert_type U0) [(2, DVal 0)]%N st_b (DVal 0) = ROk (DVal 0) /\
+  forallb (fun done => negb (step_mismatch U0 st_b done)) (run_dones U0 [(2, DVal 0)]%N st_b (DVal 0)) = true.
+Proof. split; [apply choices_valid_b; vm_compute; reflexivity|]. vm_compute. repeat split. Qed.
+
+(* an interface-typed branch condition fed from an any-typed node: T1 passes, T3 (no M2) is
+   the ordinary error of the branch's converter; a condition returning a node that is not an
+   end node of its branch is the other ordinary error *)
+Definition ops_d (choice : list key) : list op :=
+  [OpNode 2 T1 TAny None None; OpNode 3 I2 T1 None None; OpNode 4 I2 T1 None None;
+   OpEdge 0 2; OpBranch 2 I2 [3; 4] choice; OpEdge 3 1; OpEdge 4 1; OpCompile]%N.
+Example may_edges_branch_nonvacuous :
+  let st := fst (run_ops U0 asc 0 (init_graph T1 T1 None) (ops_d [3]%N)) in
+  let st' := fst (run_ops U0 asc 0 (init_graph T1 T1 None) (ops_d [2]%N)) in
+  g_compiled st = true /\ g_compiled st' = true /\
+  run U0 (assert_type U0) [(2, DVal 0)]%N st (DVal 0) = ROk (DVal 0) /\
+  run U0 (assert_type U0) [(2, DVal 2)]%N st (DVal 0) = RTypeErr /\
+  step_mismatch U0 st [(2, DVal 2)]%N = true /\
+  run U0 (assert_type U0) [(2, DVal 0)]%N st' (DVal 0) = ROther.
+Proof. vm_compute. repeat split. Qed.
